@@ -187,6 +187,10 @@ def f3(ctx):
             head_ok = tag(mo) == "lo" and "sentinel" in show(mo)
             fs = set(canon(f) for f in ctx.facts_of(ev, oks[0]))
             le = [f for f in fs if f[0] == "cmp" and f[1] == "Le" and f[2] == SIZE and tag(f[3]) == "hi"]
+            if not le:
+                # the bound may hold on every path without any single branch saying so (`!(hs != REMOVED && size > hs)` and a later `hs != REMOVED`)
+                more = common_path_literals(ev, oks[0]) or set()
+                le = [f for f in more if f[0] == "cmp" and f[1] == "Le" and f[2] == SIZE and tag(f[3]) == "hi"]
             ok = head_ok and bool(le)
         yield Ob(key_of("C10-F3", b.path, "head-pop"), ok, "Ok only for the node the sentinel points to, under size <= head size", b.loc())
         too_small = [r for r in errs if any(f[0] == "cmp" and f[1] == "Gt" and canon(f[2]) == SIZE and tag(canon(f[3])) == "hi" for f in ctx.facts_of(ev, r))]
